@@ -63,13 +63,14 @@ func main() {
 		r.Assume("regime rule: a tick stamped T is legitimate only if some New/Reset call (begun at b, with d and jitter) has b + (d - jitter) <= T and the call that closed that regime (the next Reset or Stop) had not yet returned at T; this covers ticks after Stop, ticks too early after a Reset (measured from before the Reset call), and Reset after Stop (the ticker runs again with the new period)")
 		r.Assume("Stop on a stopped ticker ({Stop, Stop}, also on a fresh ticker, and followed by Reset) must not panic and must leave the ticker usable: the call after a double Stop runs under the goroutine-dump verdict (parked on the ticker's mutex for good = violation)")
 		r.Assume("a Reset / NewJitterTicker with d <= 0 or jitter >= d must panic (documented) and opens no regime: the ticker keeps the period it had, stays usable, and its ticks are judged against the old regime; negative jitter is not generated (the documentation does not say it panics; the code treats it like 0)")
+		r.Assume("with two concurrent Stop calls each call's own return is a barrier: a tick stamped later than the stamp taken after either Stop returned was sent after that Stop returned")
 		r.Assume("that ticks keep arriving at all (liveness) is not part of the statement: a phase that sees no tick for 5 s is counted, not judged")
 
 		for _, g := range []struct {
 			name string
 			run  func(*vkit.Report)
 		}{{"regress", regress}, {"sleep+extreme", sleepCases}, {"gate", gateCases}, {"stress", stressCases}, {"ticker-extreme", tickerExtremes}, {"ticker-years", tickerYears},
-			{"near", nearCases}, {"pool", poolCases}, {"ended-first", endedFirstCases}, {"lag", lagCases}, {"seq", seqCases}, {"refused", refusedCases}, {"outside", outside}} {
+			{"near", nearCases}, {"pool", poolCases}, {"ended-first", endedFirstCases}, {"lag", lagCases}, {"seq", seqCases}, {"refused", refusedCases}, {"stop2", stop2Cases}, {"gc-load", gcLoadCases}, {"outside", outside}} {
 			t := time.Now()
 			g.run(r)
 			r.Max("wall ms per group (slowest variant)", g.name, int(time.Since(t)/ms))
@@ -92,6 +93,8 @@ func main() {
 		r.Floor("lives judged against the old regime after a refused (panicking) Reset / New", r.Table("refused", "lives judged against the old regime after a refused call"), 600)
 		r.Floor("refused calls made while the timer callback was held at ticker.fire", r.Table("refused", "refused call made: callback held at ticker.fire"), 200)
 		r.Floor("armings with periods of years watched for an immediate tick", r.Table("ticker-years", "armings by NewJitterTicker watched >= 1 ms")+r.Table("ticker-years", "armings by Reset on a running ticker watched >= 1 ms"), 2000)
+		r.Floor("tick pairs judged while runtime.GC() / allocation / spinning goroutines were running", r.Table("gc-load", "tick pairs judged under GC load"), 200000)
+		r.Floor("tickers stopped by two goroutines at once", r.Table("stop2", "trials"), 2000)
 		r.Floor("pool rounds (SleepContext ended at d+-30us, then plain sleeps)", r.Table("pool", "rounds"), 2000)
 		r.Floor("lagging-receiver tickers stopped at the second firing and looked at again", r.Table("lag", "stopped tickers looked at again >= 20 ms after the drain"), 5000)
 		r.Floor("JitterTicker lives with d >= MaxInt64/4", r.Table("ticker", "lives with d >= MaxInt64/4"), 8)
